@@ -19,11 +19,18 @@ import (
 )
 
 type simErr struct {
-	id     string
-	client bool
+	id       string
+	client   bool
+	canceled bool // the replica reports that its own handling of the request was cancelled
 }
 
 func (e *simErr) Error() string { return e.id }
+func (e *simErr) Unwrap() error {
+	if e.canceled {
+		return context.Canceled
+	}
+	return nil
+}
 
 type stubRing struct {
 	n      int // instances count reported
